@@ -15,7 +15,7 @@ CLAIMS = {
  "C04": ("Once claim/dispatch contracts of PublishContext (per-iteration), its goroutine literal, the atomic-field scan (executed only ever CAS 0->1) and the immutability scan, discharged for all inputs and iteration counts; all schedules through M5 (CAS linearizable).", "5 C04"),
  "C05": ("Panic containment contracts of callHandlerWithContext (never exits by panic, panic handler exactly once with the right arguments, Sequential mutex released on the panic path) and the dispatch loop of PublishContext, for every handler list and position.", "5 C05"),
  "C06": ("WaitGroup credit discipline (Add precedes go, exactly one Done per credit on every path), Wait/Shutdown contracts with a one-shot channel invariant; all workloads through M4.", "5 C06"),
- "C07": ("Mutual exclusion half only: the handler call of a Sequential registration happens with that registration's mutex held (at-call assertion in callHandlerWithContext, lockset bookkeeping, sequential flag immutable), so invocations cannot overlap (M1). The FIFO-order half for Async+Sequential is a scheduling property no contract in reach expresses; it is not decided (DESIGN.md).", "5 C07"),
+ "C07": ("Mutual exclusion: the handler call of a Sequential registration happens with that registration's mutex held (at-call assertion in callHandlerWithContext, lockset bookkeeping, sequential flag immutable, Sequential$1 sets exactly that flag), released on every path including panics, so invocations cannot overlap (M1); every event is still delivered exactly once (C01/C06 clauses). Publish order for Async+Sequential handlers: the property-level obligation (such a delivery is not started as an independent goroutine racing for the mutex) fails on the real code and is a recorded known finding with a deterministic replay.", "5 C07"),
  "C08": ("Hook-count, hook-order, context-threading and cancellation contracts of PublishContext/Publish/callHandlerWithContext for every handler list, hook combination and cancellation point (monotone context oracle).", "5 C08"),
  "C09": ("Option-order independence (every With* option literal and New preserve PersistInv: the context-aware before hook persists), exactly one Append per publish with type name evName(dynType(event)) and data json(event) before any delivery, Append under storeMu; MemoryStore.Append assigns strictly increasing offsets (pad20 lemmas). The decode-yields-published-value clause rests on the assumed json round-trip contract.", "5 C09"),
  "C10": ("Memory store: Append/Read/ReadStream/SaveOffset/LoadOffset against an abstract append-only log (ghost log, posOf, resumable) with the 20-digit padding order lemmas discharged as SMT lemma files. SQLite: parseOffset/formatOffset inverse, scanEvents/streamRows/streamBatch row-to-event contracts over an assumed database/sql Rows contract. SQLite SQL layer: the five statement texts are pinned (prepareStatements), Append/Read/SaveOffset/LoadOffset/ReadStream/streamBatched issue them with the right arguments and map rows to events; what the texts mean is an assumed contract (deps_sql.spec). Durable-streams store: Append sends exactly type/data/RFC3339Nano timestamp, Read maps the chunk to events and its next-offset discipline is checked (a genuine gap is a recorded known finding); HTTP and the server are assumed. Two known findings (sqlite offsets not lexicographically ordered; durable-streams limit truncation).", "5 C10"),
